@@ -560,8 +560,10 @@ with PolarsImpl.impl_store.impl_manager as impl:
 
     @impl(ops.neg)
     def _neg(x, *, _sig):
-        if isinstance(types.without_const(_sig[0]), UInt8 | UInt16 | UInt32 | UInt64):
-            # polars cannot negate unsigned integers
+        sig0 = types.without_const(_sig[0])
+        if isinstance(sig0, UInt8 | UInt16 | UInt32 | UInt64) or type(sig0) is types.Int:
+            # polars cannot negate unsigned integers (an expression of the generic
+            # type Int, e.g. the min of a UInt32 column, may be unsigned as well)
             x = x.cast(pl.Int64)
         return -x
 
